@@ -114,6 +114,27 @@ func OpenPathOpts(path string, opts *redka.Options) (*Exec, error) {
 	return &Exec{DB: db, Raw: raw, Path: path, rel: map[int64]int64{}}, nil
 }
 
+// OpenPathOneHandle connects the way redka's own TestOpenDB does: the caller opens one *sql.DB
+// (plain data source, no pragmas in it) and hands it to redka.OpenDB for both roles.
+func OpenPathOneHandle(path string, opts *redka.Options) (*Exec, error) {
+	sdb, err := sql.Open("sqlite3", path)
+	if err != nil {
+		return nil, err
+	}
+	db, err := redka.OpenDB(sdb, sdb, opts)
+	if err != nil {
+		sdb.Close()
+		return nil, err
+	}
+	raw, err := sql.Open("sqlite3", path)
+	if err != nil {
+		db.Close()
+		return nil, err
+	}
+	raw.SetMaxOpenConns(1)
+	return &Exec{DB: db, Raw: raw, Path: path, rel: map[int64]int64{}}, nil
+}
+
 func (x *Exec) Close() {
 	x.Raw.Close()
 	x.DB.Close()
